@@ -442,6 +442,25 @@ VARIABLE_SHEETS = [
 ]  # fmt: skip
 
 
+NAMESPACE_SHEETS = [
+    '@namespace p "u1";@namespace \\p "u2";p|a{}', '@namespace p "u1";@namespace P "u2";p|a{}P|b{}', '@namespace p "u1";@namespace p "u2";p|a{}',
+    '@namespace "u1";@namespace "u2";a{}', '@namespace p "u1";@namespace q "u1";p|a{}q|b{}', '@namespace p "u1";@namespace \\70  "u2";@media tv{p|a{}}',
+    '@namespace p "u";p|a{}@namespace p "v";', '@namespace \\p "u1";p|a{}\\p|b{}', '@namespace p "u1";@namespace q "u2";@namespace p "u2";q|a{}p|b{}',
+    '@namespace p "u1";@namespace q "u2";@namespace q "u1";p|a{}q|b{}', '@namespace p "";p|a{}|b{}', '@namespace p "u1";@namespace p "u1";p|a{}',
+    '@namespace a "u1";@namespace b "u1";@namespace c "u1";a|x{}b|y{}c|z{}', '@namespace p "u1";@media tv{@media tv{p|a[p|b]{}}}@namespace \\p "u2";',
+    '@namespace p "u1";@namespace p\\  "u2";p|a{}', '@namespace p "u1"; @namespace "u1"; p|a{} a{} *|a{}', '@namespace p "u1";@namespace \\P "u2";P|a{}p|a{}\\p|a{}',
+]  # fmt: skip
+
+
+def stream_namespaces(ctx, mon):
+    """declarations that repeat a prefix or a URI, in one spelling or several, with selectors using them (the clean-up at the end of a parse
+    deletes rules and may refuse to)"""
+    cases = [(t, s) for t in NAMESPACE_SHEETS for s in SETTINGS]
+    for i, (t, s) in ctx.share(cases):
+        ctx.count('namespaces.cases')
+        mon.run(t, s, stream='n', features=['namespaces.repeated'])
+
+
 def stream_variables(ctx, mon):
     """variable definitions that refer to themselves, to each other, to nothing; with and without an imported definition of the same names"""
     cases = [(t, s, imp) for t in VARIABLE_SHEETS for s in SETTINGS for imp in (False, True)]
@@ -591,6 +610,7 @@ def run_worker(ctx):
     stream_bytes(ctx, mon, 1500 if quick else 40000)
     stream_fetchers(ctx, mon, 300 if quick else 6000)
     stream_variables(ctx, mon)
+    stream_namespaces(ctx, mon)
     mon.meter.uninstall()
 
 
